@@ -30,9 +30,9 @@ type c19Barrier struct {
 	fn func()
 }
 
-func (b *c19Barrier) Start(MessageHandler) error      { return nil }
+func (b *c19Barrier) Start(MessageHandler) error       { return nil }
 func (b *c19Barrier) Send(string, int, *Message) error { return nil }
-func (b *c19Barrier) GetProtocol() string             { return "UDP" }
+func (b *c19Barrier) GetProtocol() string              { return "UDP" }
 func (b *c19Barrier) GetAddress() string {
 	if b.fn != nil {
 		b.fn()
